@@ -46,9 +46,14 @@ func getTypeInfo(t reflect.Type) *theTypeInfo {
 		sort.Sort(sortableFieldInfos(typeInfo.Fields))
 	}
 
-	// Publish
+	// Publish, unless another goroutine did so in the meantime: callers compare
+	// type infos by pointer (cycle detection), so a type must keep a single one.
 	typeInfosMutex.Lock()
-	typeInfos[t] = typeInfo
+	if published, exists := typeInfos[t]; exists {
+		typeInfo = published
+	} else {
+		typeInfos[t] = typeInfo
+	}
 	typeInfosMutex.Unlock()
 	return typeInfo
 }
